@@ -423,7 +423,14 @@ func runPrio(c *Ctx) {
 				}
 				nNested++
 				arg := core.Strip(ci.Common().Args[gi])
-				okG := arg == core.Strip(searched)
+				// the nested search runs on the call's own graph: a per-requirement discounted copy handed down would be
+				// discounted again for a nested requirement that has a name of its own (two preferences at once: the
+				// withdrawn first repair of D16, DESIGN §6)
+				okG := false
+				leaked := ""
+				if gParam != nil && unspill(p.Bind(arg)) != ssa.Value(gParam) && unspill(arg) != ssa.Value(gParam) {
+					leaked = "the nested resolution at " + p.InstrPos(ci) + " is handed a graph other than the call's own (" + core.Path(arg) + "): discounts made for this requirement's name leak into the nested search, where a requirement with a name of its own is then searched under two preferences"
+				}
 				// kept per path in a local list: graphs[i] = the searched graph; … reachTarget(graphs[i], …)
 				if ld, isLd := arg.(*ssa.UnOp); isLd && !okG {
 					if ia, isIA := ld.X.(*ssa.IndexAddr); isIA {
@@ -439,7 +446,7 @@ func runPrio(c *Ctx) {
 								}
 							}
 						})
-						okG = stored && !other
+						_ = stored && !other // handing the searched graph down is no longer accepted (see above)
 					}
 				}
 				// … or the preferred name travels in the call state: the latest store to a string field of the state that
@@ -559,6 +566,9 @@ func runPrio(c *Ctx) {
 							badNested = "the nested resolution at " + p.InstrPos(ci) + " reads a preferred name from the call state, but " + why
 						}
 					}
+				}
+				if leaked != "" {
+					okG, badNested = false, leaked
 				}
 				if !okG && badNested == "" {
 					badNested = "the nested resolution at " + p.InstrPos(ci) + " gets neither the graph its path was searched on (it runs on " + core.Path(arg) + ") nor a preferred name in the call state"
